@@ -137,6 +137,29 @@ def expr_bound(e, state, sizes):
                     if b is not None:
                         st2[p_.get('name')] = b
                 return expr_bound(children(stmts[0])[0], st2, sizes)
+            # a static helper with a body of its own (`static size_t store_chunk(slot, data, size)` clamping and returning the
+            # amount): the largest bound over its value returns, its parameters bound by the bounds of the arguments
+            if getattr(g, 'static', False) and len(_PROG.setdefault('stack', [])) < 3 and g.name not in _PROG['stack']:
+                st2 = {}
+                for p_, a in zip(g.params, children(s)[1:]):
+                    b = expr_bound(a, state, sizes)
+                    if b is not None:
+                        st2[p_.get('name')] = b
+                _PROG['stack'].append(g.name)
+                try:
+                    bf = BoundFlow(g, sizes, init=st2)
+                    best = 0
+                    rets = [r for r in g.cfg.returns() if r.id in g.cfg.reachable and children(r.ast)]
+                    if not rets:
+                        return INF
+                    for r in rets:
+                        b = bf.bound_at(r, children(r.ast)[0], sizes)
+                        if b is None:
+                            return INF
+                        best = max(best, b)
+                    return best
+                finally:
+                    _PROG['stack'].pop()
     return INF
 
 
@@ -146,7 +169,7 @@ _PROG = {}
 class BoundFlow:
     """Forward dataflow of upper bounds of integer locals/params (join = max, guards refine)."""
 
-    def __init__(self, f, sizes):
+    def __init__(self, f, sizes, init=None):
         from .dataflow import node_defs
         self.f = f
         cfg = f.cfg
@@ -154,7 +177,7 @@ class BoundFlow:
         for x in walk(f.decl):
             if x.get('kind') in ('VarDecl', 'ParmVarDecl'):
                 names[x.get('id')] = x.get('name')
-        self.IN = {cfg.entry.id: {}}
+        self.IN = {cfg.entry.id: dict(init or {})}
         visits = {}
         work = [cfg.entry]
         while work:
@@ -467,9 +490,11 @@ def rule_i7(prog, rep, rid='I7'):
                             if not isinstance(m.ast, dict) or m.kind == 'macro':
                                 return False
                             return any(y.get('kind') == 'BinaryOperator' and y.get('opcode') == '=' and
-                                       canon(children(y)[0]) == sc + '.datasize' and canon(children(y)[1]) == ln
+                                       canon(children(y)[0]) in (sc + '.datasize', sc + '->datasize') and canon(children(y)[1]) == ln
                                        for y in walk(m.ast))
                         ok = not _path_avoiding(f.cfg, n, sets_len)
+                        if not ok:
+                            ok = _i7_by_callers(prog, f, n, slot, sc, ln, sets_len)
                         rep.oblige(rid, ok, {'function': f.name, 'copy': canon(x)[:70], 'requires': '%s.datasize = %s' % (sc, ln)})
                         if not ok:
                             rep.violation(rid, f, x.get('_line'), 'len:%s' % sc,
@@ -555,6 +580,70 @@ def _flag_consts(cfg):
             if p:
                 bad.add(p)
     return {k for k in cand if k not in bad}
+
+
+def _i7_by_callers(prog, f, n, slot, sc, ln, sets_len):
+    """The copying function is a static helper working on a slot it was handed (`store_chunk(slot, data, size)`) and returns
+    the copied length on every path that leaves without storing it: the pairing obligation moves to its call sites - after
+    each call the returned amount is stored into the datasize of the slot that was passed, on every path."""
+    if not f.static or slot.get('kind') != 'DeclRefExpr' or (slot.get('_ref') or ('',))[0] != 'param':
+        return False
+    pnames = [p.get('name') for p in f.params]
+    if sc not in pnames:
+        return False
+    # every return reachable from the copy without the store returns the copied length
+    seen, work = set(), [s for (s, _l) in n.succs]
+    while work:
+        m = work.pop()
+        if m.id in seen or m is f.cfg.exit:
+            continue
+        seen.add(m.id)
+        if sets_len(m):
+            continue
+        if m.kind == 'act' and isinstance(m.ast, dict) and m.ast.get('kind') == 'ReturnStmt':
+            if not children(m.ast) or canon(children(m.ast)[0]) != ln:
+                return False
+            continue
+        # the length variable must not change between the copy and the return
+        if isinstance(m.ast, dict) and m.kind != 'macro' and any(
+                y.get('kind') in ('BinaryOperator', 'CompoundAssignOperator') and (y.get('opcode') or '').endswith('=') and
+                y.get('opcode') not in ('==', '!=', '<=', '>=') and canon(children(y)[0]) == ln for y in walk(m.ast)):
+            return False
+        for (s2, _l) in m.succs:
+            work.append(s2)
+    sites = 0
+    for g in prog.funcs_in(UNIT):
+        if g.body is None or g is f:
+            continue
+        for m in g.cfg.nodes:
+            if m.id not in g.cfg.reachable or not isinstance(m.ast, dict) or m.kind == 'macro':
+                continue
+            for y in walk(m.ast):
+                if y.get('kind') == 'CallExpr' and prog.callee_name(y) == f.name:
+                    sites += 1
+                    actual = canon(children(y)[1:][pnames.index(sc)])
+                    if actual.startswith('(&') and actual.endswith(')'):
+                        actual = actual[2:-1]
+                    # the variable receiving the result
+                    res = None
+                    if m.ast.get('kind') == 'VarDecl' and strip(var_init(m.ast) or {}) is y:
+                        res = m.ast.get('name')
+                    else:
+                        for z in walk(m.ast):
+                            if z.get('kind') == 'BinaryOperator' and z.get('opcode') == '=' and strip(children(z)[1]) is y:
+                                res = canon(children(z)[0])
+                    if res is None:
+                        return False
+
+                    def stores(k, actual=actual, res=res):
+                        if not isinstance(k.ast, dict) or k.kind == 'macro':
+                            return False
+                        return any(z.get('kind') == 'BinaryOperator' and z.get('opcode') == '=' and
+                                   canon(children(z)[0]) in (actual + '.datasize', actual + '->datasize') and
+                                   canon(children(z)[1]) == res for z in walk(k.ast))
+                    if _path_avoiding(g.cfg, m, stores):
+                        return False
+    return sites > 0
 
 
 def _path_avoiding(cfg, start, pred, skip_edge=None):
@@ -747,3 +836,347 @@ def rule_i9(prog, rep, rid='I9'):
             _i9_check(prog, rep, ctor, n, w, sizeparam[0].get('name'), rid)
     if not found:
         raise AnalysisBroken('qhasharr: no write into the region found in the constructor')
+
+
+# --------------------------------------------------------------------------------------
+# I10: the key digest is consulted only for key sizes for which it was computed
+
+def _concrete_reach(cfg, param, v, target, avoid=None):
+    """Is `target` (a node predicate) reachable from the entry when the integer parameter `param` has the value v (conditions
+    comparing it with constants are decided, every other condition may go both ways), on a path avoiding `avoid` nodes?"""
+    import operator
+    ops = {'<': operator.lt, '<=': operator.le, '>': operator.gt, '>=': operator.ge, '==': operator.eq, '!=': operator.ne}
+    seen = set()
+    work = [cfg.entry]
+    while work:
+        n = work.pop()
+        if n.id in seen:
+            continue
+        seen.add(n.id)
+        if target(n):
+            return n
+        if avoid is not None and avoid(n):
+            continue
+        decided = None
+        if n.kind == 'cond' and isinstance(n.ast, dict):
+            c = strip_parens(n.ast)
+            if c.get('kind') == 'BinaryOperator' and c.get('opcode') in ops:
+                l, r = children(c)
+                if access_path(l) == param and int_value(r) is not None:
+                    decided = ops[c['opcode']](v, int_value(r))
+                elif access_path(r) == param and int_value(l) is not None:
+                    decided = ops[c['opcode']](int_value(l), v)
+        for (s, lab) in n.succs:
+            if decided is not None and lab in ('T', 'F') and (lab == 'T') != decided:
+                continue
+            work.append(s)
+    return None
+
+
+def rule_i10(prog, rep, rid='I10'):
+    """Writer/reader agreement on the key digest.  The slot's digest field is filled by the writer from a local buffer; the
+    reader compares the lookup key's digest with it.  For every key size the reader can consult the field for, the writer
+    must have computed the digest into that buffer (not stored a placeholder): decided per key size, the sizes taken from
+    the constants the two functions compare the size with (the behaviour is constant between them)."""
+    rep.rule(rid, 'for every key size at which the lookup consults the stored key digest, the writer computed that digest before storing it '
+                  '(writer and reader agree on which keys carry a digest)')
+    prog.unit(UNIT)
+    writers, readers = [], []
+    for f in prog.funcs_in(UNIT):
+        if f.body is None:
+            continue
+        for n in f.cfg.nodes:
+            if n.id not in f.cfg.reachable or not isinstance(n.ast, dict) or n.kind == 'macro':
+                continue
+            for x in walk(n.ast):
+                if x.get('kind') != 'CallExpr':
+                    continue
+                nm = prog.callee_name(x)
+                args = [strip(a) for a in children(x)[1:]]
+                if nm in ('memcpy', 'memmove') and len(args) >= 2 and args[0].get('kind') == 'MemberExpr' and args[0].get('name') == 'namemd5':
+                    writers.append((f, n, x, canon(args[1])))
+                elif nm == 'memcmp' and any(a.get('kind') == 'MemberExpr' and a.get('name') == 'namemd5' for a in args[:2]):
+                    readers.append((f, n, x))
+    if not writers or not readers:
+        return
+
+    def size_param(f, buf=None):
+        """the size argument of the digest call in f (must be a parameter)"""
+        for x in walk(f.body):
+            if x.get('kind') == 'CallExpr' and prog.callee_name(x) == 'qhashmd5' and len(children(x)) >= 4:
+                if buf is None or canon(children(x)[3]) == buf:
+                    p = access_path(children(x)[2])
+                    if p in [q.get('name') for q in f.params]:
+                        return p
+        return None
+
+    def constants(f, p):
+        out = set()
+        for x in walk(f.body):
+            if x.get('kind') == 'BinaryOperator' and x.get('opcode') in ('<', '<=', '>', '>=', '==', '!='):
+                l, r = children(x)
+                if access_path(l) == p and int_value(r) is not None:
+                    out.add(int_value(r))
+                if access_path(r) == p and int_value(l) is not None:
+                    out.add(int_value(l))
+        return out
+    for (wf, wn, wx, buf) in writers:
+        wp = size_param(wf, buf)
+        if wp is None:
+            continue
+        for (rf, rn, rx) in readers:
+            rp = size_param(rf)
+            if rp is None:
+                continue
+            rep.instance(rid)
+            cs = constants(wf, wp) | constants(rf, rp)
+            vals = sorted({0, 1, 1 << 20} | {c + d for c in cs for d in (-1, 0, 1) if c + d >= 0})
+
+            def computes(m):
+                return isinstance(m.ast, dict) and m.kind != 'macro' and any(
+                    y.get('kind') == 'CallExpr' and prog.callee_name(y) == 'qhashmd5' and len(children(y)) >= 4
+                    and canon(children(y)[3]) == buf for y in walk(m.ast))
+            bad = None
+            for v in vals:
+                uncomputed = _concrete_reach(wf.cfg, wp, v, lambda m: m is wn, computes)
+                consulted = _concrete_reach(rf.cfg, rp, v, lambda m: m is rn)
+                if uncomputed is not None and consulted is not None:
+                    bad = v
+                    break
+            rep.oblige(rid, bad is None, {'writer': wf.name, 'reader': rf.name, 'key_sizes_examined': vals})
+            if bad is not None:
+                rep.violation(rid, rf, rx.get('_line'), 'digest:%s' % bad,
+                              'for a key of %d bytes %s compares the stored digest (line %s) but %s stores the digest buffer %s at line %s '
+                              'on a path on which qhashmd5() did not fill it: such a key is stored but never found again (duplicates, '
+                              'ENOENT on get/remove)' % (bad, rf.name, rx.get('_line'), wf.name, buf, wx.get('_line')))
+
+
+# --------------------------------------------------------------------------------------
+# I11: releasing an entry's slots goes with the chain bookkeeping
+
+def rule_i11(prog, rep, rid='I11'):
+    """remove_data() only releases slots.  The chain counter kept in the leading slot of the hash (count = 1 + number of
+    collision entries) must follow: every call of the release primitive lies on paths that either (a) adjust a slot's count
+    field (decrement / re-assignment from a saved count), directly or in a pure bookkeeping helper, (b) are dominated by the
+    entry being a sole leading entry (count == 1), or (c) is the writer's own roll-back of the entry it has just created
+    (the slot index is the writer's parameter and the store of its count dominates the call)."""
+    rep.rule(rid, 'every release of an entry (remove_data) lies on paths that adjust the chain counter, unless the entry is a sole '
+                  'leading entry or the writer rolls back the entry it just created')
+    prog.unit(UNIT)
+    prims = {'remove_data', 'remove_slot', 'put_data', 'copy_slot'}
+
+    def adjusts(y):
+        k = y.get('kind')
+        if k == 'UnaryOperator' and y.get('opcode') in ('--', '++'):
+            t = strip(children(y)[0])
+            return t.get('kind') == 'MemberExpr' and t.get('name') == 'count'
+        if k == 'CompoundAssignOperator':
+            t = strip(children(y)[0])
+            return t.get('kind') == 'MemberExpr' and t.get('name') == 'count'
+        if k == 'BinaryOperator' and y.get('opcode') == '=':
+            t = strip(children(y)[0])
+            return t.get('kind') == 'MemberExpr' and t.get('name') == 'count' and int_value(children(y)[1]) is None
+        return False
+    helpers = set()
+    for g in prog.funcs_in(UNIT):
+        if g.body is not None and g.static and g.name not in prims and any(adjusts(y) for y in walk(g.body)) and not any(
+                y.get('kind') == 'CallExpr' and prog.callee_name(y) in prims for y in walk(g.body)):
+            helpers.add(g.name)
+
+    def node_adjusts(m):
+        return isinstance(m.ast, dict) and m.kind != 'macro' and any(
+            adjusts(y) or (y.get('kind') == 'CallExpr' and prog.callee_name(y) in helpers) for y in walk(m.ast))
+    for f in sorted(prog.funcs_in(UNIT), key=lambda x: x.line or 0):
+        if f.body is None or f.name == 'remove_data':
+            continue
+        cfg = f.cfg
+        for n in cfg.nodes:
+            if n.id not in cfg.reachable or not isinstance(n.ast, dict) or n.kind == 'macro':
+                continue
+            for x in walk(n.ast):
+                if x.get('kind') != 'CallExpr' or prog.callee_name(x) != 'remove_data' or len(children(x)) < 3:
+                    continue
+                rep.instance(rid)
+                idx = canon(children(x)[2])
+                # (c) roll-back of the entry the function created itself
+                created = [m for m in cfg.nodes if m.id in cfg.reachable and isinstance(m.ast, dict) and m.kind != 'macro' and any(
+                    y.get('kind') == 'BinaryOperator' and y.get('opcode') == '=' and canon(children(y)[0]).endswith('[%s].count' % idx)
+                    and access_path(children(y)[1]) in [p.get('name') for p in f.params] for y in walk(m.ast))]
+                if idx in [p.get('name') for p in f.params] and created and \
+                        _path_to_node(cfg, n, lambda m: any(m is c for c in created)) is None:
+                    rep.oblige(rid, True, {'function': f.name, 'release': canon(x), 'how': 'roll-back of the entry created in this call'})
+                    continue
+                # paths entry -> call -> exit without an adjustment; the count == 1 branch is exempt
+
+                def sole(m, lab):
+                    if m.kind == 'cond' and isinstance(m.ast, dict):
+                        c = strip_parens(m.ast)
+                        if c.get('kind') == 'BinaryOperator' and c.get('opcode') in ('==', '!='):
+                            l, r = children(c)
+                            if canon(l).endswith('[%s].count' % idx) and int_value(r) == 1:
+                                return (lab == 'T') == (c['opcode'] == '==')
+                    return False
+                before = _path_to_node(cfg, n, node_adjusts, sole)
+                after = _path_avoiding(cfg, n, node_adjusts) if before is not None else False
+                ok = before is None or not after
+                rep.oblige(rid, ok, {'function': f.name, 'release': canon(x)})
+                if not ok:
+                    rep.violation(rid, f, x.get('_line'), 'release:%s' % idx,
+                                  '%s releases the slots of entry %s at line %s on a path that never adjusts a chain counter (and the entry '
+                                  'is not known to be a sole leading entry): if it was a collision entry - or the re-insert that follows '
+                                  'fails - the leading slot keeps counting it' % (f.name, idx, x.get('_line')))
+
+
+def _path_to_node(cfg, target, avoid, skip_edge=None):
+    """a path entry -> target avoiding `avoid` nodes (None if none)"""
+    seen = set()
+    work = [(cfg.entry, [cfg.entry])]
+    while work:
+        n, path = work.pop()
+        if n.id in seen:
+            continue
+        seen.add(n.id)
+        if n is target:
+            return path
+        if avoid(n):
+            continue
+        for (s, lab) in n.succs:
+            if skip_edge is not None and skip_edge(n, lab):
+                continue
+            work.append((s, path + [s]))
+    return None
+
+
+# --------------------------------------------------------------------------------------
+# I12: a slot index produced by arithmetic is range-checked before it is used as a subscript
+
+def rule_i12(prog, rep, rid='I12'):
+    """Ring walks over the slot array: an index variable that was advanced or computed (`i + 1`, `++i`, `i += n`) may equal
+    maxslots; before it subscripts the slot array it must have been compared with the table's maxslots on every path (the
+    wrap `if (i >= maxslots) i = 0`, the loop bound `i < maxslots`, or a `% maxslots`).  Indexes that come from
+    parameters, stored link/hash fields or helper results are in range by the image invariant / API contract."""
+    rep.rule(rid, 'a slot-array subscript by an index that was advanced or computed since its last range check is preceded on every '
+                  'path by a comparison with maxslots (wrap or bound) - the first slot looked at after `idx + 1` included')
+    prog.unit(UNIT)
+
+    def is_slot_array(b):
+        t = (qtype(strip(b)) or '') + ' ' + (dtype(strip(b)) or '')
+        return 'qhasharr_slot' in t and t.replace('const', '').strip().endswith('*') or 'qhasharr_slot_t *' in t or 'qhasharr_slot_s *' in t
+
+    def arithmetic(rhs):
+        r = strip(rhs)
+        k = r.get('kind')
+        if k == 'BinaryOperator' and r.get('opcode') in ('+', '*'):      # upward arithmetic: the result may reach maxslots
+            return True
+        if k == 'ConditionalOperator':
+            return any(arithmetic(c) for c in children(r)[1:])
+        return False
+    for f in sorted(prog.funcs_in(UNIT), key=lambda x: x.line or 0):
+        if f.body is None:
+            continue
+        cfg = f.cfg
+        uses = {}
+
+        def events(n):
+            """('def', varid, tainted) / ('use', varid, subscript) / ('useexpr', subscript) in evaluation order"""
+            out = []
+            if not isinstance(n.ast, dict) or n.kind == 'macro':
+                return out
+
+            def rec(x):
+                k = x.get('kind')
+                if k == 'VarDecl':
+                    init = var_init(x)
+                    if init is not None:
+                        rec(init)
+                        out.append(('def', x.get('id'), arithmetic(init)))
+                    return
+                if k == 'UnaryExprOrTypeTraitExpr':
+                    return
+                for c in children(x):
+                    rec(c)
+                if k == 'BinaryOperator' and x.get('opcode') == '=':
+                    l = strip_parens(children(x)[0])
+                    if l.get('kind') == 'DeclRefExpr' and (l.get('_ref') or ('',))[0] in ('local', 'param'):
+                        out.append(('def', l['_ref'][1], arithmetic(children(x)[1])))
+                elif k == 'CompoundAssignOperator' or (k == 'UnaryOperator' and x.get('opcode') in ('++', '--')):
+                    l = strip_parens(children(x)[0])
+                    if l.get('kind') == 'DeclRefExpr' and (l.get('_ref') or ('',))[0] in ('local', 'param'):
+                        up = x.get('opcode') in ('++', '+=', '*=', '<<=')
+                        if up:
+                            out.append(('def', l['_ref'][1], True))
+                        elif x.get('opcode') == '%=':
+                            out.append(('def', l['_ref'][1], False))
+                elif k == 'ArraySubscriptExpr':
+                    b, i = children(x)
+                    if is_slot_array(b):
+                        si = strip(i)
+                        if si.get('kind') == 'DeclRefExpr' and (si.get('_ref') or ('',))[0] in ('local', 'param'):
+                            out.append(('use', si['_ref'][1], x))
+                        elif arithmetic(si):
+                            out.append(('useexpr', None, x))
+            rec(n.ast)
+            return out
+
+        def refine(n, lab, st):
+            if n.kind != 'cond' or not isinstance(n.ast, dict) or lab not in ('T', 'F'):
+                return st
+            c = strip_parens(n.ast)
+            if c.get('kind') != 'BinaryOperator' or c.get('opcode') not in ('<', '>=', '>', '<=', '==', '!='):
+                return st
+            l, r = [strip(y) for y in children(c)]
+            op = c['opcode']
+            if canon(l).endswith('maxslots'):
+                l, r = r, l
+                op = {'<': '>', '>': '<', '<=': '>=', '>=': '<=', '==': '==', '!=': '!='}[op]
+            if not canon(r).endswith('maxslots'):
+                return st
+            # the variable being compared: v, ++v, v++ (pre-increment form compares the new value)
+            v = l
+            if v.get('kind') == 'UnaryOperator' and v.get('opcode') in ('++', '--') and not v.get('isPostfix'):
+                v = strip(children(v)[0])
+            if v.get('kind') != 'DeclRefExpr' or (v.get('_ref') or ('',))[0] not in ('local', 'param'):
+                return st
+            inrange = (op == '<' and lab == 'T') or (op == '>=' and lab == 'F') or (op == '==' and lab == 'F') or (op == '!=' and lab == 'T')
+            if inrange:
+                return st - {v['_ref'][1]}
+            return st
+        IN = {cfg.entry.id: frozenset()}
+        work = [cfg.entry]
+        bad = {}
+        nuses = 0
+        while work:
+            n = work.pop()
+            st = set(IN[n.id])
+            for (kind, vid, x) in events(n):
+                if kind == 'def':
+                    if x:
+                        st.add(vid)
+                    else:
+                        st.discard(vid)
+                elif kind == 'use':
+                    uses[id(x)] = x
+                    if vid in st:
+                        bad[id(x)] = (x, 'is advanced/computed and not compared with maxslots since')
+                elif kind == 'useexpr':
+                    uses[id(x)] = x
+                    bad[id(x)] = (x, 'is an arithmetic expression that was never compared with maxslots')
+            st = frozenset(st)
+            for (s, lab) in n.succs:
+                st2 = refine(n, lab, st)
+                old = IN.get(s.id)
+                if old is None:
+                    IN[s.id] = st2
+                    work.append(s)
+                elif not st2 <= old:
+                    IN[s.id] = old | st2
+                    work.append(s)
+        for k_, x in uses.items():
+            rep.instance(rid)
+            ok = k_ not in bad
+            rep.oblige(rid, ok, {'function': f.name, 'subscript': canon(x)[:50], 'line': x.get('_line')} if not ok or f.name else None)
+            if not ok:
+                rep.violation(rid, f, x.get('_line'), 'index:%s' % canon(children(x)[1])[:20],
+                              '%s: the slot subscript %s at line %s uses an index that %s: when the index equals maxslots (walk '
+                              'started at the last slot) the access is one slot behind the table\'s memory'
+                              % (f.name, canon(x)[:40], x.get('_line'), bad[k_][1]))
